@@ -1391,6 +1391,32 @@ func (eng *Engine) runFunction(fn *ssa.Function, env *Env, args []AV) []Outcome 
 				}
 				states = nil
 			case *ssa.Return:
+				// a returned comparison is decided per outcome (see flow)
+				for _, r := range t.Results {
+					if _, isCmp := r.(*ssa.BinOp); !isCmp {
+						continue
+					}
+					var split []*Env
+					for _, e := range states {
+						c := eng.val(e, r)
+						if c.K != KBool || c.B != triU {
+							split = append(split, e)
+							continue
+						}
+						et := e.clone()
+						if eng.refine(et, r, true) {
+							et.vals[r] = boolAV(triT)
+							recordPure(et, c, true)
+							split = append(split, et)
+						}
+						if eng.refine(e, r, false) {
+							e.vals[r] = boolAV(triF)
+							recordPure(e, c, false)
+							split = append(split, e)
+						}
+					}
+					states = split
+				}
 				for _, e := range states {
 					eng.observe(fn, in, e)
 					var rets []AV
@@ -1517,6 +1543,30 @@ func (eng *Engine) flow(pred, succ *ssa.BasicBlock, env *Env, deliver func(*ssa.
 		}
 	}
 	if len(phis) > 0 && idx >= 0 {
+		// an undetermined comparison that flows into a boolean phi (the tail of `a && x == y` in a predicate
+		// helper) is decided here, once per outcome, so that what the comparison says about the compared
+		// cells travels with the boolean to whoever branches on it (possibly the caller)
+		for _, phi := range phis {
+			ev := phi.Edges[idx]
+			if _, isCmp := ev.(*ssa.BinOp); !isCmp {
+				continue
+			}
+			if c := eng.val(env, ev); c.K == KBool && c.B == triU {
+				et := env.clone()
+				okT := eng.refine(et, ev, true)
+				okF := eng.refine(env, ev, false)
+				if okT {
+					et.vals[ev] = boolAV(triT)
+					recordPure(et, c, true)
+					eng.flow(pred, succ, et, deliver)
+				}
+				if !okF {
+					return
+				}
+				env.vals[ev] = boolAV(triF)
+				recordPure(env, c, false)
+			}
+		}
 		vals := make([]AV, len(phis))
 		for i, phi := range phis {
 			vals[i] = eng.val(env, phi.Edges[idx])
